@@ -133,15 +133,15 @@ theorem C14_cols_identity {α : Type} (r k : Int) (hk : 0 < k) (cols : List (Col
     | mk mn mx att =>
       simp only at hc
       by_cases h1 : r > mx
-      · have a1 : ¬ r < mn := by omega
+      · have a1 : ¬ r ≤ mn := by omega
         have a2 : ¬ r ≤ mx := by omega
         simp [h1, a1, a2]
       · by_cases h2 : r ≤ mn
-        · have a1 : r < mn + k := by omega
+        · have a1 : r ≤ mn + k := by omega
           have a2 : r + k - 1 < mn + k := by omega
           simp only [h1, h2, a1, a2, if_true, if_false]
           congr 2 <;> omega
-        · have a1 : ¬ r < mn := by omega
+        · have a1 : ¬ r ≤ mn := by omega
           have a2 : r ≤ mx + k := by omega
           have a3 : r + k - 1 ≤ mx + k := by omega
           simp only [h1, h2, a1, a2, a3, if_true, if_false]
